@@ -55,10 +55,24 @@ def make_case(rng, max_len=40):
         cfg["logical"] = rng.choice(GROUPED_FOR[cfg["physical"]])
     if cfg["entry"] == "graph_serialize" and rng.random() < .4 and cfg["physical"] != 3:
         cfg["entry"] = "graph_serialize_options"
+    elif cfg["entry"] == "graph_serialize" and rng.random() < .3:
+        cfg["entry"] = "graph_serialize_path"       # destination given as a file name
     return cfg, stmts
 
 
 def read_back(data: bytes, physical: int, reader: str) -> list:
+    if reader == "graph.parse-path":
+        import os
+        import tempfile
+        fd, path = tempfile.mkstemp(suffix=".jelly", prefix="rv-c02-")
+        try:
+            with os.fdopen(fd, "wb") as f:
+                f.write(data)
+            store = rdflib.Graph(bind_namespaces="none") if physical == 1 else rdflib.Dataset(default_union=False)
+            store.parse(path, format="jelly")           # source given as a file name
+            return T.rdflib_store_statements(store)
+        finally:
+            os.unlink(path)
     if reader == "graph.parse":
         store = rdflib.Graph(bind_namespaces="none") if physical == 1 else rdflib.Dataset(default_union=False)
         store.parse(data=data, format="jelly")
@@ -82,7 +96,7 @@ def roundtrip(cfg: dict, stmts: list, normalize: bool = True):
         except Exception as e:  # noqa: BLE001
             return {"clause": "serializer-raised", "summary": f"{type(e).__name__}: {e}"}, None
         want = {T.norm_stmt(s) for s in stmts}
-        for reader in ("graph.parse", "flat", "grouped", "to_graph"):
+        for reader in ("graph.parse", "graph.parse-path", "flat", "grouped", "to_graph"):
             try:
                 got = {T.norm_stmt(s) for s in read_back(data, cfg["physical"], reader)}
             except Exception as e:  # noqa: BLE001
@@ -110,7 +124,7 @@ def run_shard(ctx):
         ctx.observe(f"entry:{cfg['entry']}")
         ctx.observe(f"physical:{cfg['physical']}:logical:{cfg['logical']}")
         ctx.observe("normalize-literals-on" if normalize else "normalize-literals-off")
-        for r in ("graph.parse", "flat", "grouped", "to_graph"):
+        for r in ("graph.parse", "graph.parse-path", "flat", "grouped", "to_graph"):
             ctx.observe(f"reader:{r}")
         if w is not None:
             small = workloads.shrink_list(stmts, lambda s: (roundtrip(cfg, s, normalize)[0] or {}).get("clause") == w["clause"], 80)
